@@ -5,6 +5,8 @@ mkdir -p /verif/.work
 cd /repo
 export GOFLAGS=-mod=mod GOPROXY=off GOSUMDB=off GOTOOLCHAIN=local
 go test -json -vet=off -count=1 -timeout 25m ./... > /verif/.work/baseline_off.json 2>/dev/null
+# the suite's own merkle tests leave this file behind in the source tree
+rm -f /repo/merkle/merkletree.db
 python3 - <<'PY'
 import json,sys
 base=json.load(open('/root/.vp/BASELINE.json'))
